@@ -273,6 +273,20 @@ def run_shard(ctx):
 
     ctx.hypothesis_stage("structures", cases(), body, 900 if quick else 12000)
 
+    # every ion name and every library ligand next to a buried cluster, a few hosts each (the drawn cases above meet
+    # the rarer names too seldom)
+    names = sorted(gen.IONS) + sorted(gen.LIGANDS)
+    mine = [names[i] for i in ctx.my_slice(len(names))]
+    for name in mine:
+        def lib_body(s, name=name):
+            case = {"pdb": s.text, "allowance": 0, "flags": {}, "cfgspec": None}
+            v, info = check_case(case)
+            info["labels"] = info.get("labels", []) + ["library-next-to-cluster"]
+            info["sample"] = {"structure": s.summary(), "library_molecule": name, "classes": info.get("labels", [])[:10]}
+            ctx.account(case, v, info)
+        ctx.hypothesis_stage("library-next-to-cluster", gen.buried_structures(hetero=name), lib_body,
+                             (3 if quick else 40) * ctx.nshards)
+
     # the reference files with ligands / coupled systems under the sharing flags
     combos = [(n, f) for n in ("4DFR", "1HPX", "1FTJ-Chain-A", "3SGB") for f in (
         {}, {"shared_determinants": 1, "remove_penalised_group": 0, "common_charge_centre": 0},
